@@ -94,27 +94,30 @@ Proof.
   intros v p r H. destruct (echo_handle_some v p r H) as (sv & ty & dr & H1 & H2 & H3 & H4 & H5 & H6 & H7 & H8 & H9 & H10 & H11).
   apply echo_answers_only_echo_request in H3. subst ty.
   exists sv, dr. repeat (split; [assumption|]).
-  rewrite encode_echo_reply_closed in H11. inversion H11 as [E]. clear H11.
-  (* identifier and sequence number were read as 16-bit values *)
-  assert (T : forall x, rd sv ScmpEchoRequest_IDENTIFIER_RNG 16 = Ok x \/ rd sv ScmpEchoRequest_SEQUENCE_NUMBER_RNG 16 = Ok x -> trunc 16 x = x).
-  { intros x [Hx|Hx]; unfold rd in Hx;
-      destruct (negb _) in Hx; try discriminate; destruct (negb _) in Hx; try discriminate;
-      inversion Hx; unfold trunc; (rewrite N.mod_mod; [reflexivity|apply N.pow_nonzero; discriminate]). }
-  rewrite (T _ (or_introl H4)), (T _ (or_intror H5)). reflexivity.
+  exact (echo_reply_payload_closed sv r H4 H5 H11).
 Qed.
 Print Assumptions echo_reply_faithful.
 
 (** The same, by literal offsets, for every decodable raw packet: the reply's SCMP message is
     the request's message from byte 4 on (identifier, sequence number, data) behind type 129,
-    code 0 and the checksum field. *)
+    code 0 and the checksum field, and it goes back to the literal source address. *)
 Theorem echo_reply_literal :
   forall (v : bytes) (p : dppath) (r : reply),
     bytes_ok v = true -> required_size_raw v = Ok (blen v) -> echo_handle v p = Ok (Some r) ->
     rp_payload r = [129; 0; 0; 0] ++ skipn 4 (sp_payload v) /\
     rp_id r = 256 * nthN (sp_payload v) 4 + nthN (sp_payload v) 5 /\
     rp_seq r = 256 * nthN (sp_payload v) 6 + nthN (sp_payload v) 7 /\
-    rp_data r = skipn 8 (sp_payload v).
-Proof. exact echo_reply_is_literal. Qed.
+    rp_data r = skipn 8 (sp_payload v) /\
+    (* addressed back to the requester: destination = the request's source (ISD-AS bytes
+       20..27, host after the destination host), source = the request's destination *)
+    rp_dst_ia r = sp_src_ia v /\ lit_host (sp_src_nib v) (sp_src_host v) = Some (rp_dst_host r) /\
+    rp_src_ia r = sp_dst_ia v /\ lit_host (sp_dst_nib v) (sp_dst_host v) = Some (rp_src_host r).
+Proof.
+  intros v p r Hb Hr H.
+  destruct (echo_reply_is_literal v p r Hb Hr H) as (A & B & C & D).
+  destruct (echo_reply_addresses_literal v p r (conj Hb Hr) H) as (E & F & G & I).
+  repeat (split; [assumption|]). assumption.
+Qed.
 Print Assumptions echo_reply_literal.
 
 (** what "reversed" means for a standard path: same segments in reverse order, each with its
@@ -145,19 +148,13 @@ Theorem reply_iff_echo_request :
     (exists sv, as_scmp v = Ok (Some sv) /\ scmp_type sv = Ok 128) /\
     (exists rp, dp_reverse p = Some rp) /\
     (exists a, src_scion_addr v = Ok (Some a)) /\ (exists a, dst_scion_addr v = Ok (Some a)).
-Proof.
-  intros v p. assert (E : T_ECHO_REQUEST = 128) by reflexivity. split.
-  - intros [r H]. destruct (echo_handle_some v p r H) as (sv & ty & dr & H1 & H2 & H3 & _ & _ & _ & _ & H8 & H9 & H10 & _).
-    apply echo_answers_only_echo_request in H3. subst ty. rewrite E in H2.
-    refine (conj _ (conj _ (conj _ _))); eauto.
-  - intros [(sv & H1 & H2) [(rp & H3) [(sa & H4) (da & H5)]]]. rewrite <- E in H2.
-    exact (echo_handle_answers v p sv rp sa da H1 H2 H3 H4 H5).
-Qed.
+Proof. exact reply_iff_model. Qed.
 Print Assumptions reply_iff_echo_request.
 
 (** The same, with "is an SCMP echo request" read off the bytes by literal offsets
     ([Spec.spec_is_echo_request]: byte 4 = 202, header length 4 * byte 5, payload length in
-    bytes 6-7 clipped to what is there, at least 8 payload bytes, first payload byte = 128),
+    bytes 6-7 clipped to what is there, at least 8 payload bytes, first payload byte = 128)
+    and "the addresses are SCION host addresses" off the type nibbles of byte 9,
     for every decodable raw packet (what the underlay hands to the socket: every byte < 256,
     [ScionRawPacketView::try_from_slice] accepts the whole buffer). *)
 Theorem reply_iff_echo_request_literal :
@@ -166,19 +163,9 @@ Theorem reply_iff_echo_request_literal :
     ((exists r, echo_handle v p = Ok (Some r)) <->
      spec_is_echo_request v = true /\
      (exists rp, dp_reverse p = Some rp) /\
-     (exists a, src_scion_addr v = Ok (Some a)) /\ (exists a, dst_scion_addr v = Ok (Some a))).
-Proof.
-  intros v p Hb Hr. rewrite reply_iff_echo_request.
-  rewrite <- (echo_request_reading_is_literal v Hb Hr).
-  assert (E : T_ECHO_REQUEST = 128) by reflexivity.
-  assert (R : (exists sv, as_scmp v = Ok (Some sv) /\ scmp_type sv = Ok 128) <-> reads_as_echo_request v = true).
-  { unfold reads_as_echo_request. split.
-    - intros (sv & H1 & H2). rewrite H1, H2, E. reflexivity.
-    - destruct (as_scmp v) as [[sv|]| |]; try discriminate.
-      destruct (scmp_type sv) as [t| |] eqn:Et; try discriminate.
-      intros H. apply N.eqb_eq in H. rewrite E in H. subst t. exists sv. split; [reflexivity|exact Et]. }
-  rewrite R. reflexivity.
-Qed.
+     (* both addresses are SCION host addresses (IPv4 / IPv6 / service), read off byte 9 *)
+     lit_host (sp_src_nib v) (sp_src_host v) <> None /\ lit_host (sp_dst_nib v) (sp_dst_host v) <> None).
+Proof. intros v p Hb Hr. exact (reply_iff_literal v p (conj Hb Hr)). Qed.
 Print Assumptions reply_iff_echo_request_literal.
 
 (** Hence: no reply to a packet that is not SCMP or whose SCMP payload is too short to parse
@@ -293,28 +280,7 @@ Theorem received_errors_reach_receivers_literal_partial :
     (forall v p, In (v, p) pkts -> spec_is_known_error v = true ->
        exists cb, In cb (errs_of (recv_stream with_echo buflen pkts)) /\
                   e_ty (cb_msg cb) = sp_scmp_type v /\ err_quote v = Some (e_off (cb_msg cb))).
-Proof.
-  intros we b pkts Hraw. pose proof (recv_stream_never_panics we b pkts Hraw) as NP.
-  rewrite (errors_reach_receivers we b pkts NP). split.
-  - intros cb Hin. apply in_flat_map in Hin. destruct Hin as ([v p] & Hvp & Hcb). cbn [fst] in Hcb.
-    destruct (is_scmp v); [|destruct Hcb].
-    destruct (err_handle v) as [[cb'|]| |] eqn:E; cbn in Hcb; try contradiction.
-    destruct Hcb as [Hcb|[]]. subst cb'.
-    destruct (Hraw _ Hvp) as [Hb Hr]. cbn [fst] in Hb, Hr.
-    destruct (reported_error_is_literal v cb Hb Hr E) as (H1 & H2 & H3).
-    exists v, p. repeat split; assumption.
-  - intros v p Hin Hk. pose proof (Hraw _ Hin) as R. cbn [fst] in R.
-    destruct (known_error_reported v R Hk) as (cb & E). destruct R as [Hb Hr].
-    destruct (reported_error_is_literal v cb Hb Hr E) as (_ & H2 & H3).
-    exists cb. split; [|split; assumption].
-    apply in_flat_map. exists (v, p). split; [exact Hin|]. cbn [fst].
-    assert (Hs : is_scmp v = true).
-    { unfold is_scmp, nh_of. unfold required_size_raw, obind in Hr.
-      destruct (header_layout v) as [l| |] eqn:Hl; try discriminate.
-      rewrite (raw_pkt_header v l Hb Hl). cbn [obind]. rewrite (raw_next_header v l Hb Hl).
-      unfold spec_is_known_error in Hk. apply andb_prop in Hk. destruct Hk as [Hk _]. exact Hk. }
-    rewrite Hs, E. left. reflexivity.
-Qed.
+Proof. exact errors_literal_both_ways. Qed.
 Print Assumptions received_errors_reach_receivers_literal_partial.
 
 (** ** non-vacuity *)
